@@ -242,3 +242,108 @@ Print Assumptions gen_addGeneric_eq.
 Print Assumptions gen_halve_eq.
 Print Assumptions gen_mulByConstant_default.
 Print Assumptions gen_Butterfly_eq.
+
+(* ------------------------------------------------------------------ *)
+(** * Inverse.  The Go function has loops; limbgen translates it to
+      straight-line FRAGMENTS (Gen/FfRoutines.v, tools/limbgen/loops.go):
+      - [Element_Inverse_pre x]: the code before the outer [for { }]:
+        [inl z] if it returned, [inr (u, s, r, v)] = the state at the loop head;
+      - [Element_Inverse_loop1_cond/_body]: the loop [for v[0]&1 == 0 { }];
+      - [Element_Inverse_loop2_cond/_body]: the loop [for u[0]&1 == 0 { }];
+      - [Element_Inverse_tail]: the rest of the outer body: [inl z] if it
+        returned, [inr state] for the next iteration.
+      The state (u, s, r, v) is in Go declaration order; carry, borrow, bigger
+      are not live at the loop head (checked by limbgen).
+      The hand model glues the same pieces with fuel-bounded fixpoints
+      ([inv_vloop], [inv_uloop], [inverse_loop], [inverse_fuel]); the lemmas
+      below identify each hand-written piece with a generated fragment.  The
+      glue itself (run loop 1, then loop 2, then the tail, repeat) is the only
+      part of the Inverse model that is not regenerated. *)
+
+Ltac norm_inv :=
+  cbv beta iota zeta delta
+    [FfRoutines.Element_Inverse_pre FfRoutines.Element_Inverse_loop1_cond
+     FfRoutines.Element_Inverse_loop1_body FfRoutines.Element_Inverse_loop2_cond
+     FfRoutines.Element_Inverse_loop2_body FfRoutines.Element_Inverse_tail
+     FfLimbs.inverse_fuel FfLimbs.inv_body FfLimbs.lt_limbs];
+  norm_hand; norm_gen.
+
+(* case analysis on a stuck [if]/[let '(a, b) := e] whose scrutinee is closed *)
+Ltac split_stuck :=
+  match goal with
+  | |- context [match ?e with _ => _ end] =>
+      lazymatch e with
+      | add64 _ _ _ => destruct e
+      | sub64 _ _ _ => destruct e
+      | Z.eqb _ _ => destruct e
+      | negb _ => destruct e
+      | andb _ _ => destruct e
+      | orb _ _ => destruct e
+      end
+  end.
+
+Ltac by_cases := norm_inv; repeat (split_stuck; norm_inv); same.
+
+Lemma gen_inverse_pre_eq : forall fuel x,
+  FfLimbs.inverse_fuel fuel x =
+  match FfRoutines.Element_Inverse_pre x with
+  | inl z => Some z
+  | inr (u, s, r, v) => FfLimbs.inverse_loop fuel u v r s
+  end.
+Proof. intros fuel x; destruct_el x; by_cases. Qed.
+
+Lemma gen_inv_vloop_eq : forall fuel u s r v,
+  FfLimbs.inv_vloop (S fuel) v s =
+  if FfRoutines.Element_Inverse_loop1_cond u s r v
+  then (let '(_, s', _, v') := FfRoutines.Element_Inverse_loop1_body u s r v in
+        FfLimbs.inv_vloop fuel v' s')
+  else Some (v, s).
+Proof.
+  intros fuel u s r v; destruct_el u; destruct_el s; destruct_el r; destruct_el v.
+  cbn [FfLimbs.inv_vloop]. by_cases.
+Qed.
+
+(* loop 1 leaves u and r alone *)
+Lemma gen_inv_vloop_frame : forall u s r v,
+  let '(u', _, r', _) := FfRoutines.Element_Inverse_loop1_body u s r v in
+  u' = u /\ r' = r.
+Proof.
+  intros u s r v; destruct_el u; destruct_el s; destruct_el r; destruct_el v.
+  norm_inv; repeat (split_stuck; norm_inv); split; reflexivity.
+Qed.
+
+Lemma gen_inv_uloop_eq : forall fuel u s r v,
+  FfLimbs.inv_uloop (S fuel) u r =
+  if FfRoutines.Element_Inverse_loop2_cond u s r v
+  then (let '(u', _, r', _) := FfRoutines.Element_Inverse_loop2_body u s r v in
+        FfLimbs.inv_uloop fuel u' r')
+  else Some (u, r).
+Proof.
+  intros fuel u s r v; destruct_el u; destruct_el s; destruct_el r; destruct_el v.
+  cbn [FfLimbs.inv_uloop]. by_cases.
+Qed.
+
+(* loop 2 leaves s and v alone *)
+Lemma gen_inv_uloop_frame : forall u s r v,
+  let '(_, s', _, v') := FfRoutines.Element_Inverse_loop2_body u s r v in
+  s' = s /\ v' = v.
+Proof.
+  intros u s r v; destruct_el u; destruct_el s; destruct_el r; destruct_el v.
+  norm_inv; repeat (split_stuck; norm_inv); split; reflexivity.
+Qed.
+
+Lemma gen_inv_body_eq : forall u s r v,
+  FfRoutines.Element_Inverse_tail u s r v =
+  match FfLimbs.inv_body u v r s with
+  | inl z => inl z
+  | inr (u', v', r', s') => inr (u', s', r', v')
+  end.
+Proof.
+  intros u s r v; destruct_el u; destruct_el s; destruct_el r; destruct_el v.
+  by_cases.
+Qed.
+
+Print Assumptions gen_inverse_pre_eq.
+Print Assumptions gen_inv_vloop_eq.
+Print Assumptions gen_inv_uloop_eq.
+Print Assumptions gen_inv_body_eq.
